@@ -12,6 +12,7 @@ non-uniform) coordinate vector and every value array.
 -/
 import OdlModel.Model.Interp
 import OdlModel.Lemmas.Interp
+import OdlModel.Gen.InterpEdges
 import Mathlib.Tactic.Ring
 import Mathlib.Tactic.Linarith
 import Mathlib.Tactic.Module
@@ -45,7 +46,7 @@ def affineAt {K V : Type} [Add V] [SMul K V] (a0 : V) : List K → List V → V
 
 end OdlModel.C15
 
-open OdlModel.Interp OdlModel.C15
+open OdlModel.Interp OdlModel.C15 OdlModel.Gen.Interp
 
 section
 variable {K : Type} [Field K] [LinearOrder K] [IsStrictOrderedRing K]
@@ -304,6 +305,73 @@ theorem C15.value_dtypes_ok (vk : VKind) : findIndicesOutcome vk = .ok := by
 /-- Sensitivity (the code before the repair of C15-F3): without the numeric-dtype guard wide
 string values (`≥ U32`) make `_find_indices` raise, because the points are cast to strings. -/
 theorem C15.wide_string_values_fail_old : findIndicesOutcomeOld .strWide = .typeError := by decide
+
+/-- Translator tie: the statement list extracted from `_compute_linear_weights_edge` in the live
+source computes exactly the `linearEdge` every theorem above speaks about (fails to check when
+a constant, a mask, an operator or the order of the assignments in the source changes). -/
+theorem C15.extracted_linear_edge (n i : Nat) (nd : K) :
+    runEdge linearProg n i nd = linearEdge n i nd := by
+  by_cases h0 : nd < 0 <;> by_cases h1 : 1 < nd
+  · exfalso; linarith
+  all_goals
+    simp [runEdge, linearProg, EStmt.exec, Mask.eval, WExpr.eval, linearEdge, pyIndex, h0, h1]
+
+/-- Translator tie: the statement list extracted from `_compute_nearest_weights_edge` computes
+`nearestEdge`. -/
+theorem C15.extracted_nearest_edge (n i : Nat) (nd : K) :
+    runEdge nearestProg n i nd = nearestEdge n i nd := by
+  by_cases h0 : nd < 0 <;> by_cases h1 : 1 < nd
+  · exfalso; linarith
+  all_goals
+    simp [runEdge, nearestProg, EStmt.exec, Mask.eval, WExpr.eval, nearestEdge, pyIndex, h0, h1]
+  split_ifs <;> rfl
+
+/-- Translator tie: the extracted `np.where(yi < .5, i, i + 1)` of
+`_NearestInterpolator._evaluate` is the rule of `nearestIndex`. -/
+theorem C15.extracted_nearest_rule (c : Nat → K) (n : Nat) (p : K) :
+    nearestPickWith pickMask pickThen pickElse (findIndex c n p)
+      (normDist c (findIndex c n p) p) = nearestIndex c n p := by
+  simp [nearestPickWith, pickMask, pickThen, pickElse, Mask.eval, nearestIndex]
+
+/-- Translator tie: the extracted node search of `_find_indices` (left `searchsorted`, offset,
+both clipping statements with their constants) is `findIndex` for every axis with at least two
+nodes. -/
+theorem C15.extracted_find_indices (c : Nat → K) (n : Nat) (p : K) (hn : 2 ≤ n) :
+    searchSideLeft = true ∧
+    findIndexWith idxOffset clipLowBound clipLowValue clipHighBound clipHighValue c n p =
+      findIndex c n p := by
+  refine ⟨rfl, ?_⟩
+  simp only [findIndexWith, idxOffset, clipLowBound, clipLowValue, clipHighBound, clipHighValue,
+    findIndex]
+  split_ifs <;> omega
+
+/-- Input conventions of the interpolators (`_check_interp_input`), every dimension `d ≥ 1`: a
+point array of shape `(d, N)` is accepted as `N` points with an array result, a single point
+(`()` in 1d, `(d,)` otherwise) gives a scalar, a flat `(N,)` array in 1d is `N` points, and a
+first dimension that is not `d` is rejected — exactly the inputs `call_convention_invariant`
+speaks about, nothing is silently reinterpreted. -/
+theorem C15.input_classification (d N : Nat) (hd : 1 ≤ d) :
+    classifyArrayInput d [d, N] = some (false, N) ∧
+    classifyArrayInput 1 [] = some (true, 1) ∧
+    classifyArrayInput 1 [N] = some (false, N) ∧
+    (2 ≤ d → classifyArrayInput d [d] = some (true, 1)) ∧
+    (∀ m, m ≠ d → classifyArrayInput d [m, N] = none) ∧
+    (∀ m, 2 ≤ d → m ≠ d → classifyArrayInput d [m] = none) ∧
+    (∀ a b c rest, classifyArrayInput d (a :: b :: c :: rest) = none) := by
+  refine ⟨?_, rfl, rfl, ?_, ?_, ?_, ?_⟩
+  · by_cases h : d = 1 <;> simp [classifyArrayInput, h]
+  · intro h2
+    have : d ≠ 1 := by omega
+    simp [classifyArrayInput, this]
+  · intro m hm
+    by_cases h : d = 1
+    · subst h; simp [classifyArrayInput, hm]
+    · simp [classifyArrayInput, h, hm]
+  · intro m h2 hm
+    have : d ≠ 1 := by omega
+    simp [classifyArrayInput, this, hm]
+  · intro a b c rest
+    by_cases h : d = 1 <;> simp [classifyArrayInput, h]
 
 /-- Sampling dispatch: whatever the calling convention of the user's callable (out-of-place
 only, dual use, in-place only) and whether or not `out` is given, every path through
